@@ -149,15 +149,21 @@ func (w *WorkerPool) WorkerCount() int {
 // Shutdown shuts down the WorkerPool.
 func (w *WorkerPool) Shutdown() *WorkerPool {
 	w.mutex.Lock()
-	defer w.mutex.Unlock()
 
-	if w.isRunning {
+	wasRunning := w.isRunning
+	if wasRunning {
 		w.isRunning = false
 
 		for range w.workerCount {
 			w.shutdownSignal <- struct{}{}
 		}
+	}
 
+	w.mutex.Unlock()
+
+	if wasRunning {
+		// Wake the dispatcher only after releasing the pool mutex: SignalShutdown acquires the queue mutex, which the
+		// dispatcher holds while it evaluates IsRunning (pool mutex) inside PopOrWait.
 		w.Queue.SignalShutdown()
 	}
 
